@@ -277,6 +277,22 @@ class ConnRun:
     def ev_eof(self):
         self.inject("EnvEof", {}, self.w.eof)
 
+    def ev_shortframe(self, n: int = 1):
+        """Noise: a frame that authenticates but is too short to carry the inner header: the helper chokes on it, the
+        exception escapes data_received and asyncio drops the transport - for the connection a read failure like any other."""
+        w = self.w
+
+        def fn():
+            c, tr = w.codec, w.tr
+            if c is None or not c.noise or tr is None or not tr.can_receive() or not c.nd.handshake_done:
+                return False
+            fh = getattr(w.conn, "_frame_helper", None)
+            if fh is None or getattr(fh, "_state", 0) != 3:  # the client must have completed the handshake as well
+                return False
+            return tr.feed(c.nd.short_frame(n))
+
+        self.inject("EnvReset", {"f": "oserr"}, fn)
+
     def ev_reset(self, flavor: str | None = None):
         """recv() fails.  flavor: reset | timedout | oserr (None: drawn from the run's seed)"""
         w = self.w
@@ -581,7 +597,7 @@ def random_schedule(rng: random.Random, cfg: dict, n_events: int, p_fault: float
 
     def fault():
         return rng.choice(
-            [("ev", "force"), ("ev", "disconnect"), ("ev", "eof"), ("ev", "reset"), ("ev", "writefail", True),
+            [("ev", "force"), ("ev", "disconnect"), ("ev", "eof"), ("ev", "reset"), ("ev", "writefail", True), ("ev", "shortframe", rng.choice((0, 1, 3))),
              ("ev", "junk", rng.choice(("ProtocolAPIError", "RequiresEncryptionAPIError"))),
              ("ev", "chunk", [rng.choice(CLOSERS)]), ("ev", "start"), ("ev", "finish", cfg["login"]), ("tick",),
              ("ev", "cancel_op", rng.choice(("start", "finish", "disconnect")))]
@@ -669,6 +685,9 @@ CLOSERS_SYS = [
     # no close cause at all: the object is asked to connect a second time (it serves one attempt only)
     [("ev", "start")],
     [("ev", "finish", True)],
+    # (Noise only) a frame that authenticates but is too short for its inner header
+    [("ev", "shortframe", 1)],
+    [("ev", "shortframe", 0)],
 ]
 GAPS_SYS = [[], [("iter", 1)], [("idle",)]]
 
